@@ -78,6 +78,12 @@ CHECKS = {
         text='Theorems: every hard-coded table of derivative() (extracted from the AST on every run) satisfies sum w_k k^j = n! [j = n] for j < m (decide +kernel); for any weights meeting the moment conditions the stencil sum of every real polynomial of degree < m equals dx^n times its n-th derivative at every point and step; the general weights n! (V^-1)_n of centralDiffWeights meet the moment conditions for any distinct nodes, hence are exact too. centralDiffWeights is compared with an exact rational solution computed (and self-checked) in Lean; derivative / gradient / hessianMatrix are evaluated on random polynomials and quadratics, gramSchmidOrth on random full-rank matrices (orthonormality, first column, J A = B). Gradient/Hessian and Gram-Schmidt theorems: see the evidence for what is proved vs tested.',
         note='Trusted: Lean kernel + standard axioms + Mathlib; the table extractor in harness/translate.py; scipy.linalg.inv and numpy.linalg are external (results compared, not proved); rounding: comparisons at 1e-9 relative on dyadic points and steps.',
         ref='§5 C20'),
+    'C14': dict(
+        engine='oracle-stream',
+        technique='Lean 4 proof about code-shaped models of one sampler step (decision rule, negative densities, support invariance for positive draws, witness of the u = 0 finding) + detailed balance of the induced finite-state kernels (Mathlib, Proofs/C14Balance.lean when present) + trace validation of the implementation with scripted proposals and uniform draws',
+        text='Theorems for every target, domain test and every pair (candidate, uniform draw): one step of the plain sampler moves to the candidate exactly when the draw is at most the density ratio and the move stays in the domain, otherwise stays put; a negative density is an error; with a positive draw the chain never leaves the support; the component-wise sampler applies the rule per coordinate and tests the assembled candidate once. The implementation is driven with scripted proposals / draws / integer-valued target tables and must reproduce every decision of the model (trace validation). The u = 0 corner (move onto a zero-density candidate) is proved of the model and recorded as a known finding.',
+        note='Trusted: Lean kernel + standard axioms; hand-written models tied by trace validation (np.random.uniform, proposal, target, domain test observed / scripted from outside); detailed balance is for finite state spaces (continuous spaces are modelled by it, not formalised).',
+        ref='§5 C14'),
 }
 
 NOT_YET = {}
